@@ -29,7 +29,8 @@ import (
 const (
 	Code    = 0x10000
 	Data    = 0x20000
-	DataImg = 32 // bytes of the data window that belong to the image
+	DataImg = 32 // bytes of the data window that belong to the image ...
+	DataOff = 16 // ... starting this far into the window: unmapped | image | unmapped
 	DataWin = 64
 )
 
@@ -441,7 +442,7 @@ func RunCase(c *mon.Case, prop string) {
 		fail("C03.build.error", nil, "valid program rejected: %v", err)
 		return
 	}
-	imgMem, err := elf.VerifNewMemory([]model.Addr{Code, Data}, [][]byte{code, dataImg})
+	imgMem, err := elf.VerifNewMemory([]model.Addr{Code, Data + DataOff}, [][]byte{code, dataImg})
 	if err != nil {
 		c.Fail(prop+".harness", nil, "image memory: %v", err)
 		return
@@ -464,7 +465,7 @@ func RunCase(c *mon.Case, prop string) {
 		image[Code+uint64(i)] = b
 	}
 	for i, b := range dataImg {
-		image[Data+uint64(i)] = b
+		image[Data+DataOff+uint64(i)] = b
 	}
 	refMem := refrv.NewMapMem(func(a uint64) byte {
 		if b, ok := image[a]; ok {
